@@ -28,11 +28,28 @@
      detail/condition_variable.cpp  a waiter registers under the internal lock (act Register: one
                            critical section), unlocks, then suspends (act Suspend); a waker pops
                            the entry under the same lock (sub-step SIssue) and then resumes
+     thread-object recycling (thread_queue.hpp / thread_id_type.hpp / thread_data.cpp):
+                           `tasks` is indexed by THREAD OBJECT (address); every handle carries an
+                           object id and every access goes to whatever task the object is bound
+                           to at that moment.  rc = thread_data_reference_counting::count_:
+                           counted references are queue entries, a worker's `thrd`, the
+                           thread_id_ref_type bound into a retry helper (staged description,
+                           helper body until set_active_state has returned) and the keep-alive
+                           self reference of do_yield (sref); a waker inside set_thread_state
+                           holds only a thread_id_type (NOT counted) until schedule_thread
+                           converts it.  The release that takes rc to 0 is destroy_thread: the
+                           object goes to terminated_items (term); cleanup_terminated_locked moves
+                           it to the heap (one per idle iteration); create_thread_object may
+                           take any heap object (oracle oh: covers the five per-stack-size
+                           heaps) and rebind it: rebind_base re-initialises the whole state word
+                           (tag back to 0), count_ = 1.
    Ghost state: reg / wake (phase tag in which a task registered / for which a wake-up was
-   issued), ph (phases entered), the event log.
-   Not modelled (see notes/design/C01.md): yield_to / next_thrd, thread object recycling and the
-   reference counts, priorities and queue selection (subsumed by the oracle), state_ex (constantly
-   `signaled` in this fragment), timed suspension, abort_all_suspended_threads at shutdown. *)
+   issued), ph (phases entered), gid (incarnation number of the task an object is bound to:
+   fresh per create / rebind), the event log (events are keyed by incarnation).
+   Not modelled (see notes/design/C01.md): yield_to / next_thrd, priorities and queue selection
+   (subsumed by the oracle), state_ex (constantly `signaled` in this fragment), timed
+   suspension, abort_all_suspended_threads at shutdown, counted references held by user code
+   (pika::thread, the id returned by register_thread: they only delay recycling). *)
 From Coq Require Import List NArith Bool Arith.
 From Pika Require Import Base.Conc Gen.GenEnums.
 Import ListNotations.
@@ -52,14 +69,17 @@ Inductive act :=
 
 Inductive body :=
   | UserBody (l : list act)
-  | HelperBody (tgt : nat) (prev : word).  (* bind(&set_active_state, tgt, pending, .., prev) *)
+  | HelperBody (tgt : nat) (prev : word)   (* bind(&set_active_state, tgt, pending, .., prev) *)
+  | HelperRun (tgt : nat).                 (* set_active_state has read the word; the bound
+                                              thread_id_ref_type is still alive *)
 
 Record task := { tw : word; todo : body; ph : nat; reg : option N; wake : option N }.
 
 Inductive wsite := SiteAct | SiteStore | SiteBoost | SiteSet.
 
 Inductive ev :=
-  | EvNew (t : nat)                                  (* thread object created, word (pending,0) *)
+  (* t, u, h below are INCARNATION numbers (gid of the object at the time of the event) *)
+  | EvNew (t : nat)                                  (* thread object created / rebound, word (pending,0) *)
   | EvPush (t : nat) (w : word)                      (* schedule_thread; w = word at that moment *)
   | EvWord (t : nat) (s : wsite) (old new : word)    (* successful transition of the state word *)
   | EvEnter (t : nat) (k : nat) (wk : nat)           (* body of t entered for phase k on worker wk *)
@@ -68,17 +88,27 @@ Inductive ev :=
   | EvAbort (h u : nat) (prev cur : word)            (* helper h of u aborted *)
   | EvSpur (u : nat) (q : N).                        (* suspended(q) -> pending without a wake-up issued for it *)
 
-Record G := { tasks : nat -> task; ntasks : nat; pend : list nat; staged : list body; log : list ev }.
+(* tasks is indexed by thread OBJECT; ntasks = number of objects allocated so far *)
+Record G := { tasks : nat -> task; ntasks : nat; pend : list nat; staged : list body; log : list ev;
+              gid : nat -> nat;      (* ghost: incarnation bound to the object *)
+              ninc : nat;            (* ghost: number of incarnations so far *)
+              rc : nat -> nat;       (* thread_data_reference_counting::count_ *)
+              sref : nat -> nat;     (* do_yield's keep-alive thread_id_ref_type on the task's own stack *)
+              term : list nat;       (* terminated_items_ *)
+              heap : list nat }.     (* thread_heap_* (all stack sizes; the oracle picks) *)
 
 Definition dummy_task : task :=
   {| tw := {| st := st_unknown; tag := 0 |}; todo := UserBody []; ph := 0; reg := None; wake := None |}.
-Definition init_g : G := {| tasks := fun _ => dummy_task; ntasks := 0; pend := []; staged := []; log := [] |}.
+Definition init_g : G :=
+  {| tasks := fun _ => dummy_task; ntasks := 0; pend := []; staged := []; log := [];
+     gid := fun x => x; ninc := 0; rc := fun _ => 0; sref := fun _ => 0; term := []; heap := [] |}.
 
 Definition tw_of (g : G) (t : nat) : word := tw (tasks g t).
 
 (* ------------------------------------------------------------------ setters *)
 Definition set_task (g : G) (t : nat) (x : task) : G :=
-  {| tasks := upd (tasks g) t x; ntasks := ntasks g; pend := pend g; staged := staged g; log := log g |}.
+  {| tasks := upd (tasks g) t x; ntasks := ntasks g; pend := pend g; staged := staged g; log := log g;
+     gid := gid g; ninc := ninc g; rc := rc g; sref := sref g; term := term g; heap := heap g |}.
 Definition set_word (g : G) (t : nat) (w' : word) : G :=
   let k := tasks g t in set_task g t {| tw := w'; todo := todo k; ph := ph k; reg := reg k; wake := wake k |}.
 Definition set_todo (g : G) (t : nat) (b : body) : G :=
@@ -86,28 +116,61 @@ Definition set_todo (g : G) (t : nat) (b : body) : G :=
 Definition set_reg (g : G) (t : nat) (r : option N) : G :=
   let k := tasks g t in set_task g t {| tw := tw k; todo := todo k; ph := ph k; reg := r; wake := wake k |}.
 Definition add_log (g : G) (e : ev) : G :=
-  {| tasks := tasks g; ntasks := ntasks g; pend := pend g; staged := staged g; log := e :: log g |}.
+  {| tasks := tasks g; ntasks := ntasks g; pend := pend g; staged := staged g; log := e :: log g;
+     gid := gid g; ninc := ninc g; rc := rc g; sref := sref g; term := term g; heap := heap g |}.
 Definition set_pend (g : G) (p : list nat) : G :=
-  {| tasks := tasks g; ntasks := ntasks g; pend := p; staged := staged g; log := log g |}.
+  {| tasks := tasks g; ntasks := ntasks g; pend := p; staged := staged g; log := log g;
+     gid := gid g; ninc := ninc g; rc := rc g; sref := sref g; term := term g; heap := heap g |}.
 Definition set_staged (g : G) (s : list body) : G :=
-  {| tasks := tasks g; ntasks := ntasks g; pend := pend g; staged := s; log := log g |}.
+  {| tasks := tasks g; ntasks := ntasks g; pend := pend g; staged := s; log := log g;
+     gid := gid g; ninc := ninc g; rc := rc g; sref := sref g; term := term g; heap := heap g |}.
+Definition set_rc (g : G) (t : nat) (c : nat) : G :=
+  {| tasks := tasks g; ntasks := ntasks g; pend := pend g; staged := staged g; log := log g;
+     gid := gid g; ninc := ninc g; rc := upd (rc g) t c; sref := sref g; term := term g; heap := heap g |}.
+Definition set_sref (g : G) (t : nat) (c : nat) : G :=
+  {| tasks := tasks g; ntasks := ntasks g; pend := pend g; staged := staged g; log := log g;
+     gid := gid g; ninc := ninc g; rc := rc g; sref := upd (sref g) t c; term := term g; heap := heap g |}.
+Definition set_term (g : G) (l : list nat) : G :=
+  {| tasks := tasks g; ntasks := ntasks g; pend := pend g; staged := staged g; log := log g;
+     gid := gid g; ninc := ninc g; rc := rc g; sref := sref g; term := l; heap := heap g |}.
+Definition set_heap (g : G) (l : list nat) : G :=
+  {| tasks := tasks g; ntasks := ntasks g; pend := pend g; staged := staged g; log := log g;
+     gid := gid g; ninc := ninc g; rc := rc g; sref := sref g; term := term g; heap := l |}.
+(* intrusive_ptr_add_ref *)
+Definition rc_inc (g : G) (t : nat) : G := set_rc g t (S (rc g t)).
+(* intrusive_ptr_release: the release that reaches 0 calls destroy_thread, which pushes the
+   object on terminated_items_ (nobody else can reach the object any more) *)
+Definition rc_dec (g : G) (t : nat) : G :=
+  match rc g t with
+  | S O => set_term (set_rc g t 0) (t :: term g)
+  | c => set_rc g t (pred c)
+  end.
 (* thread_queue::schedule_thread *)
-Definition push (g : G) (t : nat) : G := add_log (set_pend g (t :: pend g)) (EvPush t (tw_of g t)).
+Definition push (g : G) (t : nat) : G := add_log (set_pend g (t :: pend g)) (EvPush (gid g t) (tw_of g t)).
 (* staged task description (create_thread with run_now = false) *)
 Definition stage (g : G) (b : body) : G := set_staged g (b :: staged g).
 Definition w_init : word := {| st := st_pending; tag := 0 |}.
-(* thread object created (create_thread run_now / add_new) and pushed, under the queue mutex *)
-Definition new_task (g : G) (b : body) : G :=
-  let n := ntasks g in
-  {| tasks := upd (tasks g) n {| tw := w_init; todo := b; ph := 0; reg := None; wake := None |};
-     ntasks := S n; pend := n :: pend g; staged := staged g;
-     log := EvPush n w_init :: EvNew n :: log g |}.
-
 Fixpoint remove_nth {A} (n : nat) (l : list A) : list A :=
   match l with
   | [] => []
   | x :: r => match n with O => r | S n' => x :: remove_nth n' r end
   end.
+
+(* thread object obtained (create_thread run_now / add_new -> create_thread_object) and pushed,
+   under the queue mutex: heap object number h is taken and rebound (rebind_base stores the
+   initial word: tag 0; count_ = 1), or — h out of range: the heap for this stack size is empty —
+   a new object is allocated *)
+Definition new_slot (g : G) (h : nat) : nat :=
+  match nth_error (heap g) h with Some x => x | None => ntasks g end.
+Definition new_task (g : G) (b : body) (h : nat) : G :=
+  let x := new_slot g h in
+  {| tasks := upd (tasks g) x {| tw := w_init; todo := b; ph := 0; reg := None; wake := None |};
+     ntasks := match nth_error (heap g) h with Some _ => ntasks g | None => S (ntasks g) end;
+     pend := x :: pend g; staged := staged g;
+     log := EvPush (ninc g) w_init :: EvNew (ninc g) :: log g;
+     gid := upd (gid g) x (ninc g); ninc := S (ninc g);
+     rc := upd (rc g) x 1; sref := upd (sref g) x 0; term := term g;
+     heap := match nth_error (heap g) h with Some _ => remove_nth h (heap g) | None => heap g end |}.
 
 (* ------------------------------------------------------------------ program counters *)
 (* set_thread_state in progress (run by a task phase or by an external thread) *)
@@ -128,11 +191,13 @@ Inductive pc :=
   | WBoost (t : nat)                         (* set_state(pending): load *)
   | WBoostC (t : nat) (prev : word)          (* set_state(pending): CAS loop *)
   | WRequeue (t : nat)                       (* schedule_thread(_last) *)
+  | WRelease (t : nat)                       (* thrd = thread_id_type() / ~thrd at the end of the iteration *)
   | XRun (acts : list act) (s : sub).        (* a non-pika OS thread: submits and resumes *)
 
 (* oracle: an index and a bit.  At WTop: ob = true pops element oi of the pending bag, ob = false
-   converts staged description oi; an index out of range is an idle iteration. *)
-Record oracle := { oi : nat; ob : bool }.
+   converts staged description oi (the thread object is heap object oh, or a new one); an index
+   out of range is an idle iteration (which cleans up one terminated object when ob = false). *)
+Record oracle := { oi : nat; ob : bool; oh : nat }.
 
 Definition w_pending (prev : word) : word := {| st := st_pending; tag := tag prev + 1 |}.
 
@@ -143,14 +208,14 @@ Definition sub_step (g : G) (s : sub) : G * sub :=
       let k := tasks g u in
       match reg k with
       | Some p => (add_log (set_task g u {| tw := tw k; todo := todo k; ph := ph k; reg := None; wake := Some p |})
-                           (EvIssue u (Some p)), SLoad u)
-      | None => (add_log g (EvIssue u None), SLoad u)
+                           (EvIssue (gid g u) (Some p)), SLoad u)
+      | None => (add_log g (EvIssue (gid g u) None), SLoad u)
       end
   | SLoad u =>
       if u <? ntasks g then              (* "null thread id encountered" otherwise *)
         let prev := tw_of g u in
         match st prev with
-        | st_active => (stage g (HelperBody u prev), SNone)
+        | st_active => (stage (rc_inc g u) (HelperBody u prev), SNone)   (* thread_id_ref_type(thrd) bound *)
         | st_suspended | st_pending_boost => (g, SCas u prev)
         | _ => (g, SNone)
         end
@@ -158,27 +223,35 @@ Definition sub_step (g : G) (s : sub) : G * sub :=
   | SCas u prev =>
       if word_eqb (tw_of g u) prev then
         let nw := w_pending prev in
-        let g1 := add_log (set_word g u nw) (EvWord u SiteSet prev nw) in
+        let g1 := add_log (set_word g u nw) (EvWord (gid g u) SiteSet prev nw) in
         if sst_beq (st prev) st_suspended then
           let spur := match wake (tasks g u) with
                       | Some p => negb (N.eqb (p + 1) (tag prev))
                       | None => true
                       end in
-          ((if spur then add_log g1 (EvSpur u (tag prev)) else g1), SEnq u)
+          ((if spur then add_log g1 (EvSpur (gid g u) (tag prev)) else g1), SEnq u)
         else (g1, SNone)
       else (g, SLoad u)
-  | SEnq u => (push g u, SNone)
+  | SEnq u => (push (rc_inc g u) u, SNone)     (* thread_id_type -> thread_id_ref_type: the queue entry *)
   end.
 
 (* one step of the body of t on worker me (no set_thread_state in progress) *)
-Definition run_act (g : G) (me t : nat) (orig : word) : G * pc :=
+(* do_yield: `thread_id_ref_type id = self_.get_thread_id(); // keep alive`.  The reference is
+   taken inside the body (while the worker holds `thrd`) and dropped when do_yield returns in
+   the next phase (while the next worker holds `thrd`): neither can be the first or the last
+   reference, so the model attaches them to the store that ends the phase and to the
+   pending -> active CAS that starts the next one *)
+Definition self_ref (g : G) (t : nat) : G := set_sref (rc_inc g t) t (S (sref g t)).
+Definition run_act (g : G) (h : nat) (me t : nat) (orig : word) : G * pc :=
   match todo (tasks g t) with
   | HelperBody u prev =>
       let cur := tw_of g u in
-      let g1 := set_todo g t (UserBody []) in
+      let g1 := set_todo g t (HelperRun u) in
       if sst_beq (st cur) (st prev) && negb (word_eqb cur prev)
-      then (add_log g1 (EvAbort t u prev cur), WRun t orig SNone)
+      then (add_log g1 (EvAbort (gid g t) (gid g u) prev cur), WRun t orig SNone)
       else (g1, WRun t orig (SLoad u))
+  | HelperRun u =>                       (* set_active_state returned: the bound id is released *)
+      (rc_dec (set_todo g t (UserBody [])) u, WRun t orig SNone)
   | UserBody [] => (g, WStoreL t orig st_terminated)
   | UserBody (a :: r) =>
       let g1 := set_todo g t (UserBody r) in
@@ -187,7 +260,7 @@ Definition run_act (g : G) (me t : nat) (orig : word) : G * pc :=
       | YieldBoost => (g1, WStoreL t orig st_pending_boost)
       | Suspend => (g1, WStoreL t orig st_suspended)
       | Register => (set_reg g1 t (Some (tag (tw_of g t))), WRun t orig SNone)
-      | Spawn b now => ((if now then new_task g1 (UserBody b) else stage g1 (UserBody b)), WRun t orig SNone)
+      | Spawn b now => ((if now then new_task g1 (UserBody b) h else stage g1 (UserBody b)), WRun t orig SNone)
       | Resume u => (g1, WRun t orig (SIssue u))
       end
   end.
@@ -202,8 +275,12 @@ Definition tstep (o : oracle) (me : nat) (g : G) (l : pc) : G * pc :=
         end
       else
         match nth_error (staged g) (oi o) with
-        | Some b => (new_task (set_staged g (remove_nth (oi o) (staged g))) b, WTop)
-        | None => (g, WTop)
+        | Some b => (new_task (set_staged g (remove_nth (oi o) (staged g))) b (oh o), WTop)
+        | None =>                          (* idle: cleanup_terminated_locked, one object *)
+            match term g with
+            | x :: r => (set_heap (set_term g r) (x :: heap g), WTop)
+            | [] => (g, WTop)
+            end
         end
   | WGot t => (g, WLoaded t (tw_of g t))
   | WLoaded t w0 =>
@@ -214,41 +291,49 @@ Definition tstep (o : oracle) (me : nat) (g : G) (l : pc) : G * pc :=
             let k := tasks g t in
             (* ghost: a new phase starts with no registration and no wake-up issued for it *)
             let g1 := set_task g t {| tw := nw; todo := todo k; ph := S (ph k); reg := None; wake := None |} in
-            (add_log (add_log g1 (EvWord t SiteAct w0 nw)) (EvEnter t (ph k) me), WRun t nw SNone)
-          else (g, WTop)                       (* "some other worker got in between": no execution *)
-      | st_active => (push g t, WTop)          (* still marked active: re-schedule *)
-      | _ => (g, WTop)                         (* leftover handle: dropped *)
+            (* the resumed coroutine returns from do_yield: its keep-alive reference goes away
+               (it cannot be the last one: this worker holds `thrd` for the whole phase) *)
+            let g2 := match sref g t with
+                      | S c => set_sref (set_rc g1 t (pred (rc g t))) t c
+                      | O => g1
+                      end in
+            (add_log (add_log g2 (EvWord (gid g t) SiteAct w0 nw)) (EvEnter (gid g t) (ph k) me), WRun t nw SNone)
+          else (g, WRelease t)                 (* "some other worker got in between": no execution *)
+      | st_active => (push g t, WTop)          (* still marked active: re-schedule (thrd moved) *)
+      | _ => (g, WRelease t)                   (* leftover handle: dropped *)
       end
   | WRun t orig s =>
       match s with
-      | SNone => run_act g me t orig
+      | SNone => run_act g (oh o) me t orig
       | _ => let '(g', s') := sub_step g s in (g', WRun t orig s')
       end
   | WStoreL t orig ret => (g, WStoreC t orig ret (tw_of g t))
   | WStoreC t orig ret cur =>
       if word_eqb (tw_of g t) orig then
         let nw := {| st := ret; tag := tag cur + 1 |} in
-        let g1 := add_log (add_log (set_word g t nw) (EvExit t (pred (ph (tasks g t))) me ret))
-                          (EvWord t SiteStore orig nw) in
+        let g0 := add_log (add_log (set_word g t nw) (EvExit (gid g t) (pred (ph (tasks g t))) me ret))
+                          (EvWord (gid g t) SiteStore orig nw) in
+        let g1 := if sst_beq ret st_terminated then g0 else self_ref g0 t in
         (g1, match ret with
              | st_pending => WRequeue t
              | st_pending_boost => WBoost t
-             | _ => WTop
+             | _ => WRelease t                 (* suspended / terminated: the worker's reference is dropped *)
              end)
-      else (g, WTop)                           (* "no state change" *)
+      else (g, WRelease t)                     (* "no state change" *)
   | WBoost t => (g, WBoostC t (tw_of g t))
   | WBoostC t prev =>
       if word_eqb (tw_of g t) prev then
         let nw := {| st := st_pending; tag := if sst_beq (st prev) st_pending then tag prev else tag prev + 1 |} in
-        (add_log (set_word g t nw) (EvWord t SiteBoost prev nw), WRequeue t)
+        (add_log (set_word g t nw) (EvWord (gid g t) SiteBoost prev nw), WRequeue t)
       else (g, WBoostC t (tw_of g t))
   | WRequeue t => (push g t, WTop)
+  | WRelease t => (rc_dec g t, WTop)
   | XRun acts s =>
       match s with
       | SNone =>
           match acts with
           | [] => (g, l)
-          | Spawn b now :: r => ((if now then new_task g (UserBody b) else stage g (UserBody b)), XRun r SNone)
+          | Spawn b now :: r => ((if now then new_task g (UserBody b) (oh o) else stage g (UserBody b)), XRun r SNone)
           | Resume u :: r => (g, XRun r (SIssue u))
           | _ :: r => (g, XRun r SNone)
           end
@@ -273,8 +358,14 @@ Definition main_of (l : pc) : option nat :=
   match l with
   | WGot t | WLoaded t _ | WRun t _ _ | WStoreL t _ _ | WStoreC t _ _ _ | WBoost t | WBoostC t _
   | WRequeue t => Some t
-  | WTop | XRun _ _ => None
+  | WTop | XRun _ _ | WRelease _ => None
   end.
+(* the counted reference a worker holds in `thrd` *)
+Definition wref (l : pc) : option nat :=
+  match l with WRelease t => Some t | _ => main_of l end.
+(* counted references bound into a helper *)
+Definition href (b : body) : option nat :=
+  match b with HelperBody u _ | HelperRun u => Some u | UserBody _ => None end.
 Definition sub_of (l : pc) : sub :=
   match l with WRun _ _ s => s | XRun _ s => s | _ => SNone end.
 Definition enq_of (l : pc) : option nat :=
@@ -370,15 +461,37 @@ Definition wake_pending_b (g : G) (t : nat) : bool :=
   | Some p => sst_beq (st (tw_of g t)) st_suspended && N.eqb (tag (tw_of g t)) (p + 1)
   | None => false
   end.
+(* no counted reference to object x among: queue entries, threads 0..T-1, staged helpers, helper
+   bodies, do_yield frames *)
+Definition opt_is (o : option nat) (x : nat) : bool :=
+  match o with Some y => Nat.eqb y x | None => false end.
+Definition unreferenced_b (T : nat) (c : G * (nat -> pc)) (x : nat) : bool :=
+  let g := fst c in
+  negb (existsb (Nat.eqb x) (pend g))
+  && negb (existsb (fun a => opt_is (wref (snd c a)) x) (seq 0 T))
+  && negb (existsb (fun b => opt_is (href b) x) (staged g))
+  && negb (existsb (fun y => opt_is (href (todo (tasks g y))) x) (seq 0 (ntasks g)))
+  && Nat.eqb (sref g x) 0.
+(* every object waiting for cleanup or sitting in a heap is terminated, has count 0 and is not
+   referenced; no object is in there twice *)
+Definition recycle_ok_b (T : nat) (c : G * (nat -> pc)) : bool :=
+  let g := fst c in
+  forallb (fun x => sst_beq (st (tw_of g x)) st_terminated && Nat.eqb (rc g x) 0 && unreferenced_b T c x)
+          (term g ++ heap g)
+  && nodup_b (term g ++ heap g).
 Definition mon_ok (T : nat) (c : G * (nat -> pc)) : bool :=
   let g := fst c in
-  forallb (fun t =>
-             list_eqb pev_eqb (phases_of t (rev (log g))) (alt (length (phases_of t (log g))))
-             && Nat.leb (length (filter (fun a => running_b (snd c a) t) (seq 0 T))) 1
-             && accepts (chain_of t (log g))
-             && Nat.eqb (activations (chain_of t (log g))) (enters_of t (log g)))
-          (seq 0 (ntasks g))
-  && nodup_b (pend g).
+  (* per incarnation *)
+  forallb (fun i =>
+             list_eqb pev_eqb (phases_of i (rev (log g))) (alt (length (phases_of i (log g))))
+             && accepts (chain_of i (log g))
+             && Nat.eqb (activations (chain_of i (log g))) (enters_of i (log g)))
+          (seq 0 (ninc g))
+  (* per thread object *)
+  && forallb (fun t => Nat.leb (length (filter (fun a => running_b (snd c a) t) (seq 0 T))) 1)
+             (seq 0 (ntasks g))
+  && nodup_b (pend g)
+  && recycle_ok_b T c.
 (* is the configuration quiescent (as far as threads 0..T-1 are concerned)? *)
 Definition idle_b (T : nat) (c : G * (nat -> pc)) : bool :=
   match pend (fst c), staged (fst c) with
